@@ -10,7 +10,7 @@ T == Traces[tid].ev
 Same == UNCHANGED vars
 Max(a, b) == IF a > b THEN a ELSE b
 TraceInit == /\ tid \in 1 .. Len(Traces) /\ l = 1 /\ Init /\ TLCSet(tid, 1)
-Event(ev) ==
+EventBody(ev) ==
     CASE ev.ev = "EmitCall" -> EmitCall(ev.e)
       [] ev.ev = "TaskFinish" -> TaskFinish(ev.e)
       [] ev.ev = "Deliver" -> GatherDone(ev.e)
@@ -19,6 +19,9 @@ Event(ev) ==
       [] ev.ev = "EmitDone" -> EmitDone(ev.e)
       [] ev.ev = "End" -> Quiescent /\ Len(delivered) = called /\ Same
       [] OTHER -> FALSE
+Event(ev) ==
+    /\ ("e" \in DOMAIN ev) => ev.e \in Elems            \* a value that is not one of the local pipeline's results maps to -1
+    /\ EventBody(ev)
 TraceNext ==
     \/ /\ l <= Len(T) /\ Event(T[l])
        /\ l' = l + 1 /\ TLCSet(tid, Max(TLCGet(tid), l + 1)) /\ UNCHANGED tid
